@@ -36,6 +36,8 @@ DEEP_BOUNDS = {
 MODELS_C07 = ["m7_concurrent_flow_id_allocation"]
 # an abort must reach a writer parked on credit (part of C06's decision: sub-poll interleavings)
 MODELS_C06 = ["m2_writer_vs_close", "m6_writer_with_credit_vs_close", "m9_writer_vs_acknowledge_then_close"]
+# every write completes: a writer parked on credit is woken by every grant (part of C04's decision: sub-poll interleavings)
+MODELS_C04 = ["m1_writer_vs_acknowledge", "m3_two_writes_vs_acknowledge", "m8_three_writes_two_acknowledges", "m11_writer_vs_two_granting_threads"]
 # credit conservation under racing grants (part of C03's decision)
 MODELS_C03 = ["m1_writer_vs_acknowledge", "m3_two_writes_vs_acknowledge", "m4_writer_vs_acknowledge_vs_close", "m8_three_writes_two_acknowledges"]
 
